@@ -31,6 +31,12 @@ def load():
     if SRC in sys.path:
         sys.path.remove(SRC)
     sys.path.insert(0, SRC)
+    already = sys.modules.get("serif")
+    if already is not None and os.path.realpath(os.path.dirname(getattr(already, "__file__", "") or "")) == os.path.realpath(os.path.join(SRC, "serif")):
+        # (a fuzz target imported the right tree under coverage instrumentation: keep it)
+        warnings.simplefilter("ignore")
+        _loaded = already
+        return already
     for m in [m for m in sys.modules if m == "serif" or m.startswith("serif.")]:
         del sys.modules[m]
     warnings.simplefilter("ignore")
